@@ -257,7 +257,9 @@ def run_cli_case(case, ctx, res):
             for s in range(steps):
                 key = rng.choice(list(notice.PREFIXES))
                 nyears = rng.choice([0, 1, 1, 2])
-                years = sorted(str(rng.randint(1990, 2030)) for _ in range(nyears))
+                years = [str(rng.randint(1990, 2030)) for _ in range(nyears)]  # in any order: the range is min - max
+                if nyears == 2 and rng.random() < 0.15:
+                    years.append(str(rng.randint(1990, 2030)))
                 args = ["--no-multiprocessing", "--root", str(root), "annotate", "--copyright-prefix", key, "-l", "MIT"]
                 for h in hs:
                     args += ["-c", h]
